@@ -95,7 +95,12 @@ PAIRS_THOROUGH = PAIRS_QUICK + [("hollow2", "square"), ("penta", "quad"), ("two"
 
 def specs(tier):
     pairs = PAIRS_QUICK if tier == "quick" else PAIRS_THOROUGH
-    return [dict(module="checks.c05", scenario="Measure", params=dict(A=a, B=b), time_budget=None if tier == "quick" else 2400) for a, b in pairs]
+    out = []
+    slabs = [(-3, -1), (-1, F(-1, 3)), (F(-1, 3), 0), (0, F(1, 3)), (F(1, 3), 1), (1, 3)]
+    for a, b in pairs:
+        for lo, hi in slabs:  # the parameter range is cut into slabs so that one pair uses several cores
+            out.append(dict(module="checks.c05", scenario="Measure", params=dict(A=a, B=b, slab=[str(lo), str(hi)]), time_budget=150 if tier == "quick" else 2400))
+    return out
 
 
 def main(tier, seed):
